@@ -616,3 +616,118 @@ func Verif_C13_Source(k int) {
 	}
 	verifsym.Reach("end")
 }
+
+// Verif_C12_Layouts(k): k adjacent declarations (no blank line between them,
+// so every trailing comment sits on the line directly above the next
+// declaration), each chosen from a menu that adds what the attribution
+// scenarios do not generate: functions as neighbours, multi-name value specs in
+// a const group, var groups, multi-name struct fields, a multi-line composite
+// literal with an inner trailing comment, block and detached comments, tag
+// lines, and an import spec with a trailing comment directly above the first
+// declaration. Parsed by the real go/parser on both sides.
+type vLayoutWant struct {
+	name    string
+	doc     []string
+	comment []string // nil = none; "-" as only element = not checked (multi-line declaration)
+	tag     string   // expected tag key ("" = none)
+}
+
+func vLayoutEntry(kind int, i string) (string, []vLayoutWant) {
+	switch kind {
+	case 0:
+		return "var V" + i + " int\n", []vLayoutWant{{name: "V" + i}}
+	case 1:
+		return "// dv" + i + "\nvar V" + i + " int // tv" + i + "\n", []vLayoutWant{{name: "V" + i, doc: []string{"dv" + i}, comment: []string{"tv" + i}}}
+	case 2:
+		return "func F" + i + "() {} // tf" + i + "\n", nil
+	case 3:
+		return "// df" + i + "\nfunc F" + i + "() {}\n", nil
+	case 4:
+		return "const (\n\t// da" + i + "\n\tA" + i + ", B" + i + " = 1, 2 // tab" + i + "\n\tD" + i + " = 3\n)\n", []vLayoutWant{
+			{name: "A" + i, doc: []string{"da" + i}, comment: []string{"tab" + i}},
+			{name: "B" + i, doc: []string{"da" + i}, comment: []string{"tab" + i}},
+			{name: "D" + i}}
+	case 5:
+		return "type T" + i + " struct{} // tt" + i + "\n", []vLayoutWant{{name: "T" + i, comment: []string{"tt" + i}}}
+	case 6:
+		return "var X" + i + " = []int{\n\t1, // one" + i + "\n}\n", []vLayoutWant{{name: "X" + i, comment: []string{"-"}}}
+	case 7:
+		return "/* block" + i + " */\ntype U" + i + " int\n", []vLayoutWant{{name: "U" + i, doc: []string{"block" + i}}}
+	case 8:
+		return "// detached" + i + "\n\ntype W" + i + " int\n", []vLayoutWant{{name: "W" + i}}
+	case 9:
+		return "var (\n\tG" + i + " int // tg" + i + "\n\tH" + i + " int\n)\n", []vLayoutWant{{name: "G" + i, comment: []string{"tg" + i}}, {name: "H" + i}}
+	case 10:
+		return "type S" + i + " struct {\n\tP" + i + ", Q" + i + " int // tpq" + i + "\n\t// dr" + i + "\n\tR" + i + " string\n}\n", []vLayoutWant{
+			{name: "S" + i, comment: []string{"-"}},
+			{name: "P" + i, comment: []string{"tpq" + i}}, {name: "Q" + i, comment: []string{"tpq" + i}},
+			{name: "R" + i, doc: []string{"dr" + i}}}
+	default:
+		return "// +tag" + i + "=1\n// dz" + i + "\nconst Z" + i + " = 0\n", []vLayoutWant{{name: "Z" + i, doc: []string{"dz" + i}, tag: "tag" + i}}
+	}
+}
+
+const vNumLayouts = 12
+
+func Verif_C12_Layouts(k int) {
+	src := "package p\n\nimport \"fmt\" // ti\n"
+	var wants []vLayoutWant
+	choice := make([]int, k)
+	for i := 0; i < k; i++ {
+		choice[i] = verifsym.IntRange(0, vNumLayouts-1)
+		text, w := vLayoutEntry(choice[i], string([]byte{'0' + byte(i)}))
+		src += text
+		wants = append(wants, w...)
+	}
+	src += "var _ = fmt.Sprint\n"
+	verifsym.Observe("choice", choice)
+	fset := token.NewFileSet()
+	var file *ast.File
+	var err error
+	vWithRealParser(func() { file, err = vParse(fset, "/src/p/p.go", src, parser.ParseComments) })
+	if err != nil {
+		panic("harness: layout source does not parse: " + err.Error())
+	}
+	pos := map[string]token.Pos{}
+	for _, d := range file.Decls {
+		gd, ok := d.(*ast.GenDecl)
+		if !ok {
+			continue
+		}
+		for _, sp := range gd.Specs {
+			switch x := sp.(type) {
+			case *ast.ValueSpec:
+				for _, n := range x.Names {
+					pos[n.Name] = n.NamePos
+				}
+			case *ast.TypeSpec:
+				pos[x.Name.Name] = x.Name.NamePos
+				if st, ok := x.Type.(*ast.StructType); ok {
+					for _, f := range st.Fields.List {
+						for _, n := range f.Names {
+							pos[n.Name] = n.NamePos
+						}
+					}
+				}
+			}
+		}
+	}
+	p := vNewPkgFor(fset, file)
+	for _, w := range wants {
+		at, ok := pos[w.name]
+		if !ok {
+			panic("harness: declaration not found: " + w.name)
+		}
+		tags, doc := p.Doc(at)
+		verifsym.Assert(vSameLines(doc, w.doc), "Doc of "+w.name+" is not exactly the comment group directly above the declaration (nothing if there is none)")
+		if w.tag != "" {
+			verifsym.Assert(len(tags) == 1 && len(tags[w.tag]) == 1 && tags[w.tag][0] == "1", "tag line of the doc comment not split off into the tag map")
+		} else {
+			verifsym.Assert(len(tags) == 0, "tags reported for a declaration without tag lines")
+		}
+		if len(w.comment) != 1 || w.comment[0] != "-" {
+			verifsym.Assert(vSameLines(p.Comment(at), w.comment), "Comment of "+w.name+" is not exactly the trailing comment on the declaration's own line")
+		}
+	}
+	verifsym.Reach("end")
+}
